@@ -107,6 +107,8 @@ def exc_class(res):
 
 def check(spec):
     op, twin, names = build_ops(spec)
+    spec = dict(spec)
+    spec.setdefault("index", 0)
     summ = {"evals": 0, "keys": [], "probes": {}, "faults": {}, "sim_s": 0.0, "samples": [], "harness": 0, "inconclusive": 0}
     viols = []
     # the fault-free run is forked: RLIMIT_AS / RLIMIT_CPU need a process boundary
@@ -131,6 +133,16 @@ def check(spec):
     if contained:
         summ["probes"]["contained_analysis_failures"] = contained
         summ["keys"].append(digest([op["files"], op["argv"]]))
+    # ---- exploration only (never a verdict): a broken solver installation --------------------------------
+    if op["desc"]["backend"] != "-greedy" and spec["index"] % 2 == 0:
+        kind = ["dead", "truncated", "garbage", "stale"][(spec["index"] // 2) % 4]
+        bop = json.loads(json.dumps(op))
+        bop["peer_plan"] = [{"kind": kind, "at": 0.4}]
+        stb, resb = C.run_child(bop)
+        summ["faults"]["broken_solver_" + kind] = summ["faults"].get("broken_solver_" + kind, 0) + 1
+        outcome = "limit" if stb != "ok" else ("raised_" + resb["exc"]["type"]) if resb["exc"] else \
+            ("output_written" if C.output_path(bop) in resb["files"] else "no_output")
+        summ["probes"]["broken_solver_%s_%s" % (kind, outcome)] = summ["probes"].get("broken_solver_%s_%s" % (kind, outcome), 0) + 1
     if twin is None:
         return summ, []
     # ---- faulted twin ---------------------------------------------------------------------
